@@ -69,6 +69,11 @@ CHECKS = {
         note="Trusted: the transcription of CKB.g4/CL_SYNTAX.md into InfOCFSyntax.tla; the harness' formula evaluator. Identifier/whitespace lexing is exercised only through the rendered separators.",
         ref="6 C10", tech="TLC enumeration of the token-string universe with a TLA+ recognizer (spec -> code replay) plus TLC trace validation of recorded parser calls",
     ),
+    "C15": dict(
+        text="(a) For every conditional over formula trees of depth <= 1 on {a,b,Top,Bottom} (exhaustive) and sampled deeper ones, the clause sets of belief_base_to_cnf/query_to_cnf are decided per total assignment by independent SAT calls and TLC compares them with the truth table it evaluates from the trees. (b) Every MCS enumeration call recorded while System W / lex / c-inference run (rc2 with several SAT engines, z3) and direct calls on synthetic hard/soft/ignore combinations are validated by TLC against the inclusion-minimal falsification sets, each exactly once, empty iff the hard part is unsatisfiable.",
+        note="Trusted: PySAT minisat22 for the per-assignment SAT calls of the recorder; atoms located in the id pool by name.",
+        ref="6 C15", tech="TLC trace validation of recorded CNFs and MCS calls against TLA+ definitions (EvalTree, MinimalSets)",
+    ),
 }
 
 NOT_YET = {
